@@ -4,6 +4,7 @@ import (
 	"context"
 	"fmt"
 	"slices"
+	"sync"
 	"testing"
 	"time"
 
@@ -11,6 +12,7 @@ import (
 
 	"github.com/fogfish/golem/pipe/v2"
 	"github.com/fogfish/golem/pipe/v2/fork"
+	"github.com/fogfish/golem/pure/monoid"
 )
 
 // ---------------------------------------------------------------- C07 / C09: a reader of the error channel that takes its time
@@ -464,6 +466,241 @@ func progsJoinExtremes(t *testing.T, prop string) {
 		}
 		for i := 0; i < 4; i++ {
 			runProg(t, prop, &caseT{Stage: "prog/join-zero-size-huge-capacity", N: i, Comment: v})
+		}
+	}
+}
+
+// ---------------------------------------------------------------- extreme arguments (C05), StdErr inside a chain (C07)
+
+func init() {
+	// Take with counts far beyond any input: everything is delivered
+	progs["take-huge-count"] = func(c *caseT) string {
+		ctx, cancel := context.WithCancel(context.Background())
+		defer cancel()
+		counts := []int{1<<31 + 2, 1<<32 + 3, 1<<33 + 1, 1<<62 + 5, 1<<63 - 1}
+		n := counts[c.Par%len(counts)]
+		xs := seqInts(1, c.N)
+		got := api.ToSeq(api.Take(ctx, api.Seq(xs...), n))
+		if !slices.Equal(got, xs) && !(len(got) == 0 && len(xs) == 0) {
+			return fmt.Sprintf("Take(%d) over %d elements: %s", n, len(xs), diffAt(got, xs))
+		}
+		return ""
+	}
+	// stages over channels of a zero-size element type of enormous capacity (no memory is needed for their buffers)
+	progs["zero-size-huge-capacity"] = func(c *caseT) string {
+		ctx, cancel := context.WithCancel(context.Background())
+		defer cancel()
+		caps := []int{1 << 20, 1 << 44, 1 << 50, 1<<62 + 1}
+		k := caps[c.Par%len(caps)]
+		in := make(chan struct{}, k)
+		for i := 0; i < c.N; i++ {
+			in <- struct{}{}
+		}
+		close(in)
+		id := func(struct{}) struct{} { return struct{}{} }
+		var out <-chan struct{}
+		var exx <-chan error
+		switch c.Mode {
+		case "Map":
+			out, exx = pipe.Map(ctx, in, pipe.Pure(id))
+		case "Map/Lift":
+			out, exx = pipe.Map(ctx, in, pipe.Lift(func(struct{}) (struct{}, error) { return struct{}{}, nil }))
+		case "FMap":
+			out, exx = pipe.FMap(ctx, in, pipe.LiftF(func(ctx context.Context, _ struct{}, o chan<- struct{}) error {
+				o <- struct{}{}
+				return nil
+			}))
+		case "Filter":
+			out = pipe.Filter(ctx, in, pipe.Pure(func(struct{}) bool { return true }))
+		case "TakeWhile":
+			out = pipe.TakeWhile(ctx, in, pipe.Pure(func(struct{}) bool { return true }))
+		case "Take":
+			out = pipe.Take(ctx, in, c.N+1)
+		}
+		if exx != nil {
+			go func() {
+				for range exx {
+				}
+			}()
+		}
+		n := 0
+		for range out {
+			n++
+		}
+		if n != c.N {
+			return fmt.Sprintf("%s over a struct{} channel of capacity %d holding %d elements delivered %d", c.Mode, k, c.N, n)
+		}
+		return ""
+	}
+	// the library's error reader between two stages: the stream it hands on has the capacity of the stream it was given,
+	// so a reader may still take the values of the following stage first and its errors afterwards
+	progs["stderr-inside-a-chain"] = func(c *caseT) string {
+		ctx, cancel := context.WithCancel(context.Background())
+		defer cancel()
+		xs := seqInts(1, c.N)
+		bad1 := func(x int) bool { return x%5 == 2 }
+		bad2 := func(x int) bool { return x%3 == 1 }
+		a, ea := pipe.Map(ctx, pipe.Seq(xs...), pipe.Try(func(x int) (int, error) {
+			if bad1(x) {
+				return 0, idErr(x)
+			}
+			return x, nil
+		}))
+		mid := api.StdErr(a, ea)
+		if cap(mid) != cap(a) {
+			return fmt.Sprintf("StdErr handed on a stream of capacity %d, it was given one of capacity %d", cap(mid), cap(a))
+		}
+		b, eb := pipe.Map(ctx, mid, pipe.Try(func(x int) (int, error) {
+			if bad2(x) {
+				return 0, idErr(x)
+			}
+			return x * 2, nil
+		}))
+		var got, errs, wg, we []int
+		first, second := func() {
+			for v := range b {
+				got = append(got, v/2)
+			}
+		}, func() {
+			for e := range eb {
+				errs = append(errs, toInt(e))
+			}
+		}
+		if c.Mode == "errors-first" {
+			first, second = second, first
+		}
+		first()
+		second()
+		for _, x := range xs {
+			switch {
+			case bad1(x):
+			case bad2(x):
+				we = append(we, x)
+			default:
+				wg = append(wg, x)
+			}
+		}
+		if !slices.Equal(got, wg) {
+			return "Map, StdErr, Map (" + c.Mode + "): values " + diffAt(got, wg)
+		}
+		if !slices.Equal(errs, we) {
+			return "Map, StdErr, Map (" + c.Mode + "): errors of the second stage " + diffAt(errs, we)
+		}
+		return ""
+	}
+}
+
+func progsExtremeArgs(t *testing.T, prop string) {
+	for _, v := range []string{"", "fork"} {
+		for i := 0; i < 5; i++ {
+			for _, n := range []int{0, 1, 7} {
+				runProg(t, prop, &caseT{Stage: "prog/take-huge-count", N: n, Par: i, Comment: v})
+			}
+		}
+	}
+	for _, m := range []string{"Map", "Map/Lift", "FMap", "Filter", "TakeWhile", "Take"} {
+		for i := 0; i < 4; i++ {
+			runProg(t, prop, &caseT{Stage: "prog/zero-size-huge-capacity", Mode: m, N: 5, Par: i})
+		}
+	}
+}
+
+func progsStdErrChain(t *testing.T, prop string) {
+	for _, v := range []string{"", "fork"} {
+		for _, m := range []string{"values-first", "errors-first"} {
+			for _, n := range []int{0, 1, 4, 20, 300} {
+				runProg(t, prop, &caseT{Stage: "prog/stderr-inside-a-chain", Mode: m, N: n, Comment: v})
+			}
+		}
+	}
+}
+
+// ---------------------------------------------------------------- C10: Combine calls that wait for each other
+
+func init() {
+	// every distribution of elements over the workers is possible, also the one in which each of the par workers
+	// holds one element at the same time: a Combine that waits until par of them are under way is then released
+	progs["fold-workers-meet"] = func(c *caseT) string {
+		ctx, cancel := context.WithCancel(context.Background())
+		defer cancel()
+		par := c.Par
+		var mu sync.Mutex
+		met, calls := make(chan struct{}), 0
+		sum := monoid.FromOp(0, func(a, b int) int {
+			mu.Lock()
+			calls++
+			k := calls
+			if k == par {
+				close(met)
+			}
+			mu.Unlock()
+			if k <= par {
+				<-met // the first par combinations meet
+			}
+			return a + b
+		})
+		in := make(chan int)
+		go func() {
+			defer close(in)
+			for i := 1; i <= c.N; i++ {
+				in <- i
+			}
+		}()
+		got := fork.ToSeq(fork.Fold(ctx, par, in, sum))
+		if want := c.N * (c.N + 1) / 2; len(got) != 1 || got[0] != want {
+			return fmt.Sprintf("fork.Fold(par=%d) over 1..%d gave %v, want %d", par, c.N, got, want)
+		}
+		return ""
+	}
+	// one worker is held up inside its first Combine until all the other elements have been folded - by the other workers
+	progs["fold-one-worker-held"] = func(c *caseT) string {
+		ctx, cancel := context.WithCancel(context.Background())
+		defer cancel()
+		var mu sync.Mutex
+		calls, rest := 0, make(chan struct{})
+		prod := monoid.FromOp(1, func(a, b int) int {
+			mu.Lock()
+			calls++
+			k := calls
+			if k == c.N {
+				close(rest)
+			}
+			mu.Unlock()
+			if k == 1 {
+				<-rest // returns only when every other element has been combined
+			}
+			return a * b
+		})
+		in := make(chan int, c.Cap)
+		go func() {
+			defer close(in)
+			for i := 0; i < c.N; i++ {
+				in <- 1 + i%3
+			}
+		}()
+		want := 1
+		for i := 0; i < c.N; i++ {
+			want *= 1 + i%3
+		}
+		got := fork.ToSeq(fork.Fold(ctx, c.Par, in, prod))
+		if len(got) != 1 || got[0] != want {
+			return fmt.Sprintf("fork.Fold(par=%d) over %d elements gave %v, want %d", c.Par, c.N, got, want)
+		}
+		return ""
+	}
+}
+
+func progsFoldMeet(t *testing.T, prop string) {
+	for _, par := range []int{2, 3, 6, 17, 40, 130} {
+		for _, n := range []int{par, par + 1, 3 * par} {
+			runProg(t, prop, &caseT{Stage: "prog/fold-workers-meet", Par: par, N: n})
+		}
+	}
+	for _, par := range []int{2, 3, 8} {
+		for _, n := range []int{12, 40} {
+			for _, cp := range []int{0, 1} {
+				runProg(t, prop, &caseT{Stage: "prog/fold-one-worker-held", Par: par, N: n, Cap: cp})
+			}
 		}
 	}
 }
